@@ -75,6 +75,18 @@ def place_str(pl):
     return s
 
 
+def fn_fingerprint(b):
+    """shape of a function that survives a rename: visibility, parameter and return types, the set of callees"""
+    callees = sorted({(t.get("res") or t.get("fn") or "?") for blk in b.blocks if not blk.get("cl")
+                      for t in [blk["t"]] if t["k"] == "call"})
+    return {"pub": bool(b.rec.get("pub")), "sig": [b.locals[i] for i in range(0, b.argc + 1)], "callees": callees,
+            "nblocks": len(b.blocks)}
+
+
+def _parent(path):
+    return path.rsplit("::", 1)[0]
+
+
 class Body:
     __slots__ = ("rec", "path", "crate", "kind", "file", "line", "blocks", "locals", "names",
                  "_succ", "_pred", "_dom", "_pdom", "_defs", "root", "self_ty", "trait",
@@ -522,8 +534,10 @@ class Facts:
     """Lazy fact base: body records are kept as raw JSON lines and parsed on demand;
     whole-program queries pre-filter with a substring search (`grep`)."""
 
-    def __init__(self, d, targets=("sozu_command_lib-lib", "sozu_lib-lib", "sozu-bin")):
+    def __init__(self, d, targets=("sozu_command_lib-lib", "sozu_lib-lib", "sozu-bin"), normalise=True):
         self.dir = d
+        self.renamed = {}    # current name -> reference name (functions), filled by _normalise_renames
+        self.renamed_fields = {}
         self.raw = {}        # path -> (raw line, crate)
         self._parsed = {}
         self.adts = {}
@@ -576,6 +590,124 @@ class Facts:
             if not ended:
                 raise Broken("fact file without end marker: " + fs[0])
         self._children = None
+        if normalise:
+            self._normalise_renames()
+
+    # ---- rename normalisation -------------------------------------------
+    def _normalise_renames(self):
+        """A function or field that was merely renamed is presented to the rules under the name it has in the
+        reference inventory (tables/anchors.json): rules name the parts of the program they talk about, and a rename
+        changes no behaviour.  A rename is recognised only when it is unambiguous: the reference name is gone, exactly
+        the right number of unknown names of the same parent and the same shape appeared, and (for functions) the
+        callee sets are similar.  Anything else is left alone (and a rule that misses its anchor reports BROKEN)."""
+        tp = os.path.join(os.path.dirname(os.path.abspath(__file__)), "..", "tables", "anchors.json")
+        if not os.path.exists(tp):
+            return
+        ref = json.load(open(tp))
+        rfns = ref["fns"]
+        cur = {p for p in self.raw if "{closure" not in p}
+        missing = [p for p in rfns if p not in cur]
+        subst = []
+        if missing:
+            new = [p for p in cur if p not in rfns]
+            by_parent = defaultdict(list)
+            for n in new:
+                by_parent[_parent(n)].append(n)
+            for m in sorted(missing):
+                cands = []
+                for n in by_parent.get(_parent(m), []):
+                    b = Body(json.loads(self.raw[n][0]), self.raw[n][1])
+                    if b.derived:
+                        continue
+                    fp = fn_fingerprint(b)
+                    if fp["sig"] != rfns[m]["sig"] or fp["pub"] != rfns[m]["pub"]:
+                        continue
+                    short_m, short_n = m.rsplit("::", 1)[1], n.rsplit("::", 1)[1]
+                    a = {c.replace(short_n, short_m) for c in fp["callees"]}
+                    r = set(rfns[m]["callees"])
+                    j = len(a & r) / float(len(a | r)) if (a | r) else 1.0
+                    cands.append((j, n))
+                cands.sort(reverse=True)
+                if cands and cands[0][0] >= 0.5 and (len(cands) == 1 or cands[0][0] - cands[1][0] >= 0.2):
+                    n = cands[0][1]
+                    if n not in [x for x, _ in subst]:
+                        subst.append((n, m))
+        # fields: same ADT and variant, a reference field gone, one unknown field of the same type appeared
+        fsubst = []
+        for ap, vs in ref.get("fields", {}).items():
+            a = self.adts.get(ap)
+            if a is None:
+                continue
+            for v in a["variants"]:
+                rv = vs.get(v["name"])
+                if rv is None:
+                    continue
+                curf = {f["name"]: f["ty"] for f in v["fields"]}
+                gone = [f for f in rv if f not in curf]
+                came = [f for f in curf if f not in rv]
+                for g in gone:
+                    same = [c for c in came if curf[c] == rv[g]]
+                    same_gone = [x for x in gone if rv[x] == rv[g]]
+                    if len(same) == 1 and len(same_gone) == 1:
+                        fsubst.append((ap, v["name"], same[0], g))
+        if not subst and not fsubst:
+            return
+        pats = [(n, m, re.compile(re.escape(json.dumps(n)[1:-1]) + r'(?=["\\:<])')) for n, m in subst]
+        fpats = []
+        for ap, vn, newf, oldf in fsubst:
+            japp = json.dumps(ap)[1:-1]
+            fpats.append((newf, '"f|%s|%s|%s"' % (japp, vn, newf), '"f|%s|%s|%s"' % (japp, vn, oldf)))
+
+        aggpats = []
+        for ap, vn, newf, oldf in fsubst:
+            japp = json.dumps(ap)[1:-1]
+            aggpats.append((newf, oldf, re.compile(r'("adt":"%s","var":"%s","vi":\d+,"fn":\[)([^\]]*)\]' % (re.escape(japp), re.escape(vn)))))
+
+        def fix(line):
+            for newf, oldf, ap_ in aggpats:
+                if '"%s"' % newf in line:
+                    line = ap_.sub(lambda mm, newf=newf, oldf=oldf: mm.group(1) + mm.group(2).replace('"%s"' % newf, '"%s"' % oldf) + "]", line)
+            for n, m, pat in pats:
+                if json.dumps(n)[1:-1] in line:
+                    line = pat.sub(lambda _m, m=m: json.dumps(m)[1:-1], line)
+            for newf, a, b in fpats:
+                if a in line:
+                    line = line.replace(a, b)
+            return line
+
+        raw2 = {}
+        for p, (line, crate) in self.raw.items():
+            l2 = fix(line)
+            p2 = p
+            for n, m, pat in pats:
+                if p == n or p.startswith(n + "::{"):
+                    p2 = m + p[len(n):]
+            raw2[p2] = (l2, crate)
+        self.raw = raw2
+        self.promoted = {fixk: fix(v) for fixk, v in ((self._ren_key(k, subst), v) for k, v in self.promoted.items())}
+        self.constbodies = {k: fix(v) for k, v in self.constbodies.items()}
+        for im in self.impls:
+            for it in im["items"]:
+                for n, m in subst:
+                    if it["fn"] == n:
+                        it["fn"] = m
+                        it["name"] = m.rsplit("::", 1)[1]
+        for ap, vn, newf, oldf in fsubst:
+            for v in self.adts[ap]["variants"]:
+                if v["name"] == vn:
+                    for f in v["fields"]:
+                        if f["name"] == newf:
+                            f["name"] = oldf
+            self.renamed_fields[(ap, newf)] = oldf
+        # aggregate field-name lists ("fn":[..]) of the renamed fields' ADTs are positional; names there are cosmetic
+        self.renamed = {n: m for n, m in subst}
+
+    @staticmethod
+    def _ren_key(k, subst):
+        for n, m in subst:
+            if k.startswith(n + "::{"):
+                return m + k[len(n):]
+        return k
 
     # ---- lookup -------------------------------------------------------
     def has(self, path):
